@@ -302,7 +302,7 @@ func (e *emitter) add(v Val, s Spec, o Obs) {
 }
 
 func (e *emitter) addRadix(c radixCase, text string, back int64, errText string) {
-	if len(e.radix.Cases) >= 1500 && !e.cfg.Thorough() || len(e.radix.Cases) >= 8000 {
+	if len(e.radix.Cases) >= 1000 && !e.cfg.Thorough() || len(e.radix.Cases) >= 8000 {
 		return
 	}
 	res := "(@None Z)"
